@@ -10,6 +10,7 @@ pub mod c12;
 pub mod c16;
 pub mod c17;
 pub mod c18;
+pub mod c19;
 pub mod lang;
 
 pub struct Case {
@@ -71,6 +72,7 @@ pub fn generate(prop: &str, tier: &str, g: &mut Gen) {
         "C16" => c16::generate(g, thorough),
         "C17" => c17::generate(g, thorough),
         "C18" => c18::generate(g, thorough),
+        "C19" => c19::generate(g, thorough),
         "C02" => c02::generate(g, thorough),
         "C03" => lang::generate_c03(g, thorough),
         "C04" => c04::generate(g, thorough),
